@@ -26,6 +26,7 @@ type C14Case struct {
 	Target string    `json:"target"` // stack | cond   (closures mode)
 	Kind   string    `json:"kind"`
 	Cap    int       `json:"cap"`
+	Expr   int       `json:"expr,omitempty"` // Condition target: 0 leaf expression; 1 a Stack; 2 a Stack with its own rejecting validity closure; 3 a Stack with rejecting validity+equality closures and a presentation closure
 	Steps  []C14Step `json:"steps"`
 }
 
@@ -203,6 +204,22 @@ func runC14Push(c C14Case) (st Stats, err error) {
 	return st, nil
 }
 
+// c14Expr: the expression of the Condition target (fresh instance per call).
+func c14Expr(form int) any {
+	switch form {
+	case 1:
+		return stackage.Or().Push("a", "b")
+	case 2:
+		return stackage.Or().Push("a", "b").SetValidityPolicy(func(...any) error { return fmt.Errorf("nested stack rejects itself") })
+	case 3:
+		return stackage.And().Push("a", "b").
+			SetValidityPolicy(func(...any) error { return fmt.Errorf("nested stack rejects itself") }).
+			SetEqualityPolicy(func(any, any) error { return fmt.Errorf("nested stack equals nothing") }).
+			SetPresentationPolicy(func(...any) string { return "NESTED" })
+	}
+	return "v"
+}
+
 // ---- closures mode ---------------------------------------------------------------------
 
 type c14Closure struct {
@@ -219,11 +236,21 @@ func runC14Closures(c C14Case) (st Stats, err error) {
 	if c.Target == "cond" {
 		var cd, twin, other stackage.Condition
 		if p := guard(func() {
-			cd = stackage.Cond("kw", stackage.Eq, "v")
-			twin = stackage.Cond("kw", stackage.Eq, "v")
-			other = stackage.Cond("kw", stackage.Ne, "v")
+			cd = stackage.Cond("kw", stackage.Eq, c14Expr(c.Expr))
+			twin = stackage.Cond("kw", stackage.Eq, c14Expr(c.Expr))
+			other = stackage.Cond("kw", stackage.Ne, c14Expr(c.Expr))
 		}); p != "" {
 			return st, violf("setup/panic", "%s", p)
+		}
+		if c.Expr > 0 {
+			st.Class(fmt.Sprintf("cond-expression-form-%d", c.Expr))
+		}
+		// what the built-in behaviour does with a nested Stack that carries closures of its own is
+		// nobody's statement: with such an expression only the installed-closure clauses are asserted
+		builtinKnown := c.Expr <= 1
+		builtinStr, builtinExpr := "kw = v", any("v")
+		if c.Expr == 1 {
+			builtinStr = "kw = a OR b"
 		}
 		check := func(where string) *Violation {
 			var v *Violation
@@ -239,15 +266,17 @@ func runC14Closures(c C14Case) (st Stats, err error) {
 						v = violf("Condition.Valid/closure", "%s: Valid()=%v although the closure returned nil", where, got)
 						return
 					}
-				} else if got != nil {
+				} else if got != nil && builtinKnown {
 					v = violf("Condition.Valid/builtin", "%s: Valid()=%v on a valid condition without closure", where, got)
 					return
 				}
 				valid := got == nil
 				// String
 				str := cd.String()
-				want := "kw = v"
+				want := builtinStr
+				strKnown := builtinKnown
 				if cl := installed["presentation"]; cl != nil {
+					strKnown = true
 					want = presOut(cl.n)
 					if cl.fail {
 						want = ""
@@ -255,8 +284,9 @@ func runC14Closures(c C14Case) (st Stats, err error) {
 				}
 				if !valid {
 					want = ""
+					strKnown = true
 				}
-				if str != want {
+				if strKnown && str != want {
 					v = violf("Condition.String", "%s: String()=%q, want %q (installed %v)", where, str, want, keysOf(installed))
 					return
 				}
@@ -272,7 +302,7 @@ func runC14Closures(c C14Case) (st Stats, err error) {
 						v = violf("Condition.IsEqual/closure/self", "%s: IsEqual(self)=%v with %d consultations; closure returns %v", where, e3, cl.calls-before, cl.err)
 						return
 					}
-				} else if e1 != nil || e2 == nil {
+				} else if builtinKnown && (e1 != nil || e2 == nil) {
 					v = violf("Condition.IsEqual/builtin", "%s: IsEqual(twin)=%v IsEqual(other)=%v without closure", where, e1, e2)
 					return
 				}
@@ -283,7 +313,7 @@ func runC14Closures(c C14Case) (st Stats, err error) {
 						v = violf("Condition.Unmarshal/closure", "%s: Unmarshal()=(%v,%v), closure returns ([U %d],%v)", where, u, uerr, cl.n, cl.err)
 						return
 					}
-				} else if !reflect.DeepEqual(u, []any{"CONDITION", "kw", stackage.Operator(stackage.Eq), "v"}) || uerr != nil {
+				} else if c.Expr == 0 && (!reflect.DeepEqual(u, []any{"CONDITION", "kw", stackage.Operator(stackage.Eq), builtinExpr}) || uerr != nil) {
 					v = violf("Condition.Unmarshal/builtin", "%s: Unmarshal()=(%#v,%v) without closure", where, u, uerr)
 					return
 				}
@@ -385,8 +415,19 @@ func runC14Closures(c C14Case) (st Stats, err error) {
 		s = newStackOfKind(c.Kind, 0).Push("a", "b")
 		twin = newStackOfKind(c.Kind, 0).Push("a", "b")
 		other = newStackOfKind(c.Kind, 0).Push("a", "c")
+		if c.Expr >= 2 {
+			// a nested Stack (and a Condition holding one) that carry rejecting closures of their own:
+			// the receiver's installed closures must still be the ones that decide
+			for _, x := range []stackage.Stack{s, twin, other} {
+				x.Push(c14Expr(c.Expr), stackage.Cond("k", stackage.Eq, c14Expr(c.Expr)))
+			}
+		}
 	}); p != "" {
 		return st, violf("setup/panic", "%s", p)
+	}
+	nestedClosures := c.Expr >= 2
+	if nestedClosures {
+		st.Class("stack-with-nested-closure-bearers")
 	}
 	builtinString := ""
 	switch c.Kind {
@@ -408,13 +449,17 @@ func runC14Closures(c C14Case) (st Stats, err error) {
 					return
 				}
 				valid = !cl.fail
-			} else if got != nil {
+			} else if got != nil && !nestedClosures {
 				v = violf("Stack.Valid/builtin", "%s: Valid()=%v without closure", where, got)
 				return
+			} else if got != nil {
+				valid = false
 			}
 			str := s.String()
 			want := builtinString
+			strKnown := !nestedClosures
 			if cl := installed["presentation"]; cl != nil && c.Kind != "BASIC" {
+				strKnown = true
 				want = presOut(cl.n)
 				if cl.fail {
 					want = ""
@@ -422,8 +467,9 @@ func runC14Closures(c C14Case) (st Stats, err error) {
 			}
 			if !valid || c.Kind == "BASIC" {
 				want = ""
+				strKnown = true
 			}
-			if str != want {
+			if strKnown && str != want {
 				v = violf("Stack.String/"+c.Kind, "%s: String()=%q, want %q (installed %v)", where, str, want, keysOf(installed))
 				return
 			}
@@ -444,7 +490,7 @@ func runC14Closures(c C14Case) (st Stats, err error) {
 					v = violf("Stack.IsEqual/closure/self", "%s: IsEqual(self)=%v IsEqual(alias of self)=%v with %d consultations; closure returns %v", where, e3, e4, cl.calls-before, cl.err)
 					return
 				}
-			} else if e1 != nil || e2 == nil {
+			} else if !nestedClosures && (e1 != nil || e2 == nil) {
 				v = violf("Stack.IsEqual/builtin", "%s: IsEqual(twin)=%v IsEqual(other)=%v without closure", where, e1, e2)
 				return
 			}
@@ -454,7 +500,7 @@ func runC14Closures(c C14Case) (st Stats, err error) {
 					v = violf("Stack.Unmarshal/closure", "%s: Unmarshal()=(%v,%v), closure returns ([U %d],%v)", where, u, uerr, cl.n, cl.err)
 					return
 				}
-			} else if !reflect.DeepEqual(u, []any{c.Kind, "a", "b"}) || uerr != nil {
+			} else if !nestedClosures && (!reflect.DeepEqual(u, []any{c.Kind, "a", "b"}) || uerr != nil) {
 				v = violf("Stack.Unmarshal/builtin", "%s: Unmarshal()=(%#v,%v) without closure", where, u, uerr)
 				return
 			}
@@ -613,6 +659,9 @@ func genC14(t *rapid.T, tier Tier) C14Case {
 	if rapid.IntRange(0, 2).Draw(t, "cond") == 0 {
 		c.Target = "cond"
 		whiches = []string{"validity", "presentation", "equality", "unmarshal", "evaluator"}
+		c.Expr = rapid.SampledFrom([]int{0, 0, 1, 2, 3}).Draw(t, "exprform")
+	} else if rapid.IntRange(0, 3).Draw(t, "nested-closures") == 0 {
+		c.Expr = rapid.IntRange(2, 3).Draw(t, "nestedform")
 	}
 	n := rapid.IntRange(1, 6).Draw(t, "nsteps")
 	for i := 0; i < n; i++ {
@@ -633,13 +682,13 @@ func init() {
 		ID: "C14",
 		Rule: "rapid-generated (a) push histories: batches of 0..6 tagged values (strings, ints, a native Stack, a Stack alias) against push policies given by an arbitrary accept/reject table over the 10 tags (recording closure), capacity none/1..6, interleaved with policy replacement/removal, Pop, SetErr(nil) and switching no-nesting (which must have no say while a policy is installed): " +
 			"the closure's call log (values, order), Len/Index*, Err() are compared with the model (consult once per value while room remains; first rejection stops the batch and becomes Err()); " +
-			"(b) install/remove sequences (1..6) of validity/presentation/equality/marshal/unmarshal closures on Stacks of every kind and validity/presentation/equality/unmarshal/evaluator on Conditions, with all observations " +
+			"(b) install/remove sequences (1..6) of validity/presentation/equality/marshal/unmarshal closures on Stacks of every kind and validity/presentation/equality/unmarshal/evaluator on Conditions (expression a leaf, a Stack, or a Stack carrying rejecting closures of its own: the Condition's closures must still decide), with all observations " +
 			"(Valid, String, IsEqual twin/other, Unmarshal, Marshal, Evaluate) checked after every step against closure result or built-in behaviour. " +
 			"non-trivial = a rejection after >=1 acceptance and before >=1 further value, or capacity hit mid-batch with a policy installed, or an install->remove->call sequence; distinct = distinct case JSON",
 		Gen: genC14,
 		Run: runC14,
 		Floors: map[string]float64{"reject-after-accept-before-more": 0.08, "capacity-hit-mid-batch-with-policy": 0.03,
-			"basic-presentation-policy": 0.01, "cond-closures": 0.05, "stack-closures": 0.1, "policy-removed": 0.05, "policy-decides-despite-no-nesting": 0.01},
+			"basic-presentation-policy": 0.01, "cond-closures": 0.05, "cond-expression-form-2": 0.01, "stack-with-nested-closure-bearers": 0.02, "cond-expression-form-3": 0.01, "stack-closures": 0.1, "policy-removed": 0.05, "policy-decides-despite-no-nesting": 0.01},
 		Assumptions: []string{"installed closures are pure recorders", "Stack.Valid is only required to be non-nil when the closure errs (it wraps the error); Condition.Valid must return the closure's error itself"},
 	})
 }
